@@ -50,7 +50,23 @@ pub fn world_by_name(name: &str) -> Option<&'static WorldDef> {
     worlds().into_iter().find(|w| w.name == name)
 }
 
+fn test_poison_op() -> Option<(u16, u32)> {
+    static POISON: std::sync::OnceLock<Option<(u16, u32)>> = std::sync::OnceLock::new();
+    *POISON.get_or_init(|| {
+        let v = std::env::var("SIMCTL_TEST_POISON_OP").ok()?;
+        let (a, b) = v.split_once(':')?;
+        Some((a.parse().ok()?, b.parse().ok()?))
+    })
+}
+
 fn step<W: World>(w: &mut W, i: usize, op: Op, env: &mut Env) {
+    env.log_op(op);
+    if let Some((k, a)) = test_poison_op() {
+        // self-test of the crash isolation machinery (SIMCTL_TEST_POISON_OP=<kind>:<a>)
+        if op.k == k && op.a == a {
+            std::process::abort();
+        }
+    }
     env.op_index = i;
     env.wakes.clear();
     env.alloc = Default::default();
@@ -59,6 +75,17 @@ fn step<W: World>(w: &mut W, i: usize, op: Op, env: &mut Env) {
     env.kind_fp.add(op.k as u64);
     env.stats.ops += 1;
     w.exec(op, env);
+    check_waker_balance(env, false);
+}
+
+/// C01: the library must drop every `Waker` it cloned exactly once.
+fn check_waker_balance(env: &mut Env, end_of_run: bool) {
+    let (lo, hi) = waker_balance_range();
+    if lo < 0 {
+        env.fail("C01", "waker-double-drop", "a Waker was dropped more often than it was cloned (a dropped future's waker was used again)".into(), true);
+    } else if end_of_run && hi > 0 && !env.has_fatal() {
+        env.fail("C01", "waker-leak", format!("{} Waker clone(s) were never dropped although every future and the primitive are gone", hi), false);
+    }
 }
 
 pub fn generic_gen_run<W: World>(cfg: &Cfg, rng: &mut Rng, env: &mut Env) -> Vec<Op> {
@@ -96,6 +123,9 @@ pub fn generic_gen_run<W: World>(cfg: &Cfg, rng: &mut Rng, env: &mut Env) -> Vec
     w.finish(env);
     if env.has_fatal() {
         std::mem::forget(w);
+    } else {
+        drop(w);
+        check_waker_balance(env, true);
     }
     ops
 }
@@ -113,6 +143,9 @@ pub fn generic_replay<W: World>(cfg: &Cfg, ops: &[Op], env: &mut Env) {
     w.finish(env);
     if env.has_fatal() {
         std::mem::forget(w);
+    } else {
+        drop(w);
+        check_waker_balance(env, true);
     }
 }
 
@@ -135,6 +168,9 @@ pub struct Replay {
     pub minimised_from_ops: usize,
     #[serde(default)]
     pub runner: String,
+    /// L2: the choice tape (every executor / fault / script decision of the run)
+    #[serde(default)]
+    pub tape: Vec<u32>,
 }
 
 pub fn render_ops(def: &WorldDef, ops: &[Op]) -> Vec<String> {
@@ -303,6 +339,10 @@ pub struct BatchSpec<'a> {
     pub collect_states: bool,
     pub stop_on_first: bool,
     pub max_found: usize,
+    /// directory in which every worker thread records the run index it is executing
+    pub idx_dir: Option<String>,
+    /// write-ahead operation log (crash isolation mode, single run)
+    pub oplog: Option<String>,
 }
 
 const STATE_CAP: usize = 1_500_000;
@@ -324,10 +364,13 @@ pub fn run_batch(spec: &BatchSpec) -> BatchOut {
     let merged: Mutex<BatchOut> = Mutex::new(BatchOut { world: spec.def.name.to_string(), ..Default::default() });
     const CHUNK: u64 = 256;
     std::thread::scope(|sc| {
-        for _t in 0..spec.threads.max(1) {
-            sc.spawn(|| {
+        for t in 0..spec.threads.max(1) {
+            let (next, stop, merged) = (&next, &stop, &merged);
+            sc.spawn(move || {
+                let idx_file = spec.idx_dir.as_ref().and_then(|d| std::fs::File::create(format!("{}/t{}", d, t)).ok());
                 let mut env = Env::new();
                 env.collect_states = spec.collect_states;
+                env.oplog = spec.oplog.as_ref().and_then(|p| std::fs::File::create(p).ok());
                 let mut out = BatchOut::default();
                 loop {
                     if stop.load(Ordering::Relaxed) {
@@ -340,8 +383,13 @@ pub fn run_batch(spec: &BatchSpec) -> BatchOut {
                     let end = (base + CHUNK).min(spec.runs);
                     for r in base..end {
                         let run = spec.first_run + r;
+                        if let Some(f) = &idx_file {
+                            use std::os::unix::fs::FileExt;
+                            let _ = f.write_at(&run.to_le_bytes(), 0);
+                        }
                         let (cfg, mut rng) = draw_run_cfg(spec.def, spec.seed, run, &spec.cfg_override);
                         env.reset();
+
                         let ops = (spec.def.gen_run)(&cfg, &mut rng, &mut env);
                         out.runs += 1;
                         out.stats.merge(&env.stats);
